@@ -8,14 +8,14 @@ CHECKS = {
  "C15": dict(
   category="exploration",
   technique="runtime oracle: real imapnum.Set / imap.SeqSet / imap.UIDSet driven in lock-step with an explicit-interval reference model after every operation; checkptr-instrumented build; per-case watchdog and heap guard for non-termination",
-  text="Exhaustive enumeration of all operation sequences up to a length bound over boundary endpoints (incl. 2^32-2, 2^32-1, '*') plus seeded random long sequences and grammar/mutation generated texts; every prefix is checked for canonical form, membership on all interesting probes, Dynamic(), String/Parse round trip and terminating ascending Nums(). Held-on-what-was-enumerated; not a proof for longer sequences.",
+  text="Exhaustive enumeration of all operation sequences up to a length bound over boundary endpoints (incl. 2^32-2, 2^32-1, '*') plus seeded random long sequences, AddSet between sets of 30..90 ranges, the public constructors with empty and boundary lists, and grammar/mutation generated texts through every text entry point (imapnum.ParseSet, imapwire.ParseSeqSet, Decoder.ExpectNumSet of both kinds); every prefix is checked for canonical form, membership on all interesting probes, Dynamic(), String/Parse round trip and terminating ascending Nums(). Held-on-what-was-enumerated; not a proof for longer sequences.",
   design_ref="DESIGN.md §3 C15",
   note="Trusts the ~60-line reference set model and the independent grammar recognizer in checks/c15; Nums() only executed for cardinality <= 3000."),
 
  "C16": dict(
   category="exploration",
   technique="runtime oracle: real internal/utf7 encoder/decoder (one-shot and hand-driven streaming Transform with tiny buffers) compared with an independent RFC 3501 reference codec giving a three-valued verdict per input",
-  text="Exhaustive enumeration of encoder inputs over a 9-symbol alphabet and of decoder inputs over an 11-symbol base64/shift alphabet up to a length bound, random long strings, mutated encodings, and streamed runs for every source chunk 1..8 x destination size 1..16 on a sample. Decides round trip, RFC form, rejection of the named malformed forms, UTF-8 validity of outputs, panic freedom and chunking independence on everything enumerated.",
+  text="Exhaustive enumeration of encoder inputs over a 9-symbol alphabet and of decoder inputs over an 11-symbol base64/shift alphabet up to a length bound, random long strings, mutated encodings, histories of 1500..20000 distinct names run three times through the process-wide codec, the wire call sites Encoder.Mailbox -> Decoder.ExpectMailbox in every string mode, and streamed runs (transformers used fresh or after Reset) for every source chunk 1..8 x destination size 1..16 on a sample. Decides round trip, RFC form, rejection of the named malformed forms, UTF-8 validity of outputs, panic freedom and chunking independence on everything enumerated.",
   design_ref="DESIGN.md §3 C16",
   note="Trusts internal/ref/utf7ref (independent codec written from the RFC) and the Transformer driver in checks/c16."),
  "C20": dict(
@@ -27,21 +27,21 @@ CHECKS = {
  "C05": dict(
   category="exploration",
   technique="runtime trace monitor: recording stub Session behind a real imapserver connection driven in lock-step by a raw client; independent RFC 9051 state machine predicts permitted backend calls, response class, close and next state for every command; race detector on",
-  text="Coverage pass forcing every (state, command, backend outcome) triple for each of 84 configurations (transport x InsecureAuth x greeting x session kind x caps), then seeded random command histories. Every backend call is checked against the reference state at call time; credentials never reach the backend on plaintext without InsecureAuth; capability lists checked against state.",
+  text="Coverage pass forcing every (state, command, backend outcome) triple for each of 84 configurations (transport x InsecureAuth x greeting x session kind x caps), then seeded random command histories (every third command spelled in lower/mixed case; UID forms of commands that have none are unknown commands), plus STARTTLS pipelined with credentials in one segment. Every backend call is checked against the reference state at call time; credentials never reach the backend on plaintext without InsecureAuth; capability lists checked against state.",
   design_ref="DESIGN.md §3 C05",
   note="Trusts the reference state machine in checks/c05 and crypto/tls; Unselect / Expunge-in-CLOSE failures are not scripted."),
 
  "C04": dict(
   category="exploration",
   technique="runtime trace monitor: raw lock-step client against a real imapserver connection with a recording stub backend; payloads are marker commands with unique tags/names; the dialogue generator is the reference framer; the vconn park signal decides 'no response is coming'; race detector on",
-  text="Dialogues over command templates in all three states x string argument forms (quoted / sync / non-sync / literal8) x announced sizes around 4096 and the APPEND limit x server literal policies, syntax errors before literals, trailing garbage, AUTHENTICATE and IDLE exchanges (incl. an Idle goroutine streaming updates while DONE and further commands arrive), rejected commands followed by 200..70000 bytes on the same line, plus random multi-command dialogues; each dialogue in lock-step, those without synchronising exchanges also in one single write (tagged-response order checked), a share with the server's reads cut into 1..5-byte segments. Decides: every tagged response answers a command that was really sent, exactly once; no backend call originates from payload text; output is whole well-formed lines; '+' only when a sync literal / AUTHENTICATE / IDLE waits for it; accepted literal arguments arrive byte-exact.",
+  text="Dialogues over command templates in all three states x string argument forms (quoted / sync / non-sync / literal8) x announced sizes around 4096 and the APPEND limit x server literal policies, syntax errors before literals, trailing garbage, AUTHENTICATE and IDLE exchanges (incl. an Idle goroutine streaming updates while DONE and further commands arrive), rejected commands followed by 200..70000 bytes on the same line, dialogues of 45 failing LOGINs with 2..4 KiB synchronising literals on one unauthenticated connection, a backend that panics in the middle of an accepted APPEND literal, ENABLE prefixes with a backend echoing the requested sections, plus random multi-command dialogues; each dialogue in lock-step, those without synchronising exchanges also in one single write (tagged-response order checked), a share with the server's reads cut into 1..5-byte segments. Decides: every tagged response answers a command that was really sent, exactly once; a continuation request is never followed by the tagged completion of the same command before any literal octet was sent; no backend call originates from payload text; output is whole well-formed lines; '+' only when a sync literal / AUTHENTICATE / IDLE waits for it; accepted literal arguments arrive byte-exact.",
   design_ref="DESIGN.md §3 C04",
   note="For a refused non-synchronising literal both RFC 7888 behaviours (discard, close) are accepted. Trusts the independent tokenizer internal/wiretok and the dialogue generator's by-construction knowledge of payload bytes."),
 
  "C19": dict(
   category="exploration",
   technique="runtime oracle: SearchCriteria.And and the server's SEARCH parser evaluated with an independent reference matcher on a 400-message universe that distinguishes every field; SEARCH commands sent in every key permutation through a real server with a recording stub backend",
-  text="A: all ordered pairs from a pool of several hundred criteria (every field, boundary values, unset bounds, NOT/OR trees, multi-field) checked for match(And(a,b),m) == match(a,m) && match(b,m) on every message, operand unchanged. B: 1..5-key SEARCH commands over a 56-key alphabet in all permutations; the recorded criteria must select exactly the conjunction of the keys; malformed sub-keys must not be dropped silently.",
+  text="A: all ordered pairs from a pool of several hundred criteria (every field, boundary values, unset bounds, NOT/OR trees, multi-field) checked for match(And(a,b),m) == match(a,m) && match(b,m) on every message, operand unchanged, in UTC and with every time in +09:00 / -05:00 / +05:30; And histories (an operand with spare slice capacity shared by several receivers that are refined afterwards: every result re-evaluated at the end); the saved-result marker '$' in the pool. B: 1..5-key SEARCH commands over a 56-key alphabet in all permutations, every third one with the key names in lower/mixed case; the recorded criteria must select exactly the conjunction of the keys; malformed sub-keys must not be dropped silently.",
   design_ref="DESIGN.md §3 C19",
   note="Trusts internal/ref/searchref (matcher + universe); dates all UTC; ModSeq outside the property."),
 
@@ -55,14 +55,14 @@ CHECKS = {
  "C06": dict(
   category="fault_enumeration",
   technique="runtime fault injection: byte-offset faults (EOF, reset, write error) injected by the instrumented in-process connection under a real imapserver connection with a counting stub backend; hostile-input workers with a 64 MB stack bound; race detector on",
-  text="For each of 12 valid transcripts (sync and non-sync literals, AUTHENTICATE exchange, IDLE, STARTTLS, implicit TLS, pipelining, long FETCH literal) every client->server byte offset x {EOF, reset} and every server->client offset x {write error} is enumerated (quick: all offsets of 5 transcripts, every 7th of the rest); after each cut the server must close its side, call Session.Close exactly once, stop Idle, and log no panic. The same enumeration is run with the real in-memory backend behind the protocol layer (2 transcripts: FETCH with long literals / STORE-COPY-EXPUNGE-APPEND-LIST-IDLE), plus a stalled-idler scenario (a client idles and stops reading while another changes its mailbox 5..400 times, then both leave). Plus mutated/garbage inputs, literal-cap probes (4096 / APPEND limit / sizes >= 2^32; no continuation request may be sent for an over-the-cap literal) and deep-nesting families to 4*10^5 levels.",
+  text="For each of 12 valid transcripts (sync and non-sync literals, AUTHENTICATE exchange, IDLE, STARTTLS, implicit TLS, pipelining, long FETCH literal) every client->server byte offset x {EOF, reset} and every server->client offset x {write error} is enumerated (quick: all offsets of 5 transcripts, every 7th of the rest); after each cut the server must close its side, call Session.Close exactly once, stop Idle, and log no panic. The same enumeration is run with the real in-memory backend behind the protocol layer (2 transcripts: FETCH with long literals / STORE-COPY-EXPUNGE-APPEND-LIST-IDLE); a command nested deeper than 1000 must not reach the backend, plus a stalled-idler scenario (a client idles and stops reading while another changes its mailbox 5..400 times, then both leave). Plus mutated/garbage inputs, literal-cap probes (4096 / APPEND limit / sizes >= 2^32; no continuation request may be sent for an over-the-cap literal) and deep-nesting families to 4*10^5 levels.",
   design_ref="DESIGN.md §3 C06",
   note="Backstops (40 s) are orders of magnitude above observed latencies; only literals are subject to the 4096-byte cap; stalls (peer silent but connected) are outside the property."),
 
  "C07": dict(
   category="exploration",
   technique="runtime trace monitor: harness-owned MailboxTracker mirrored by a unique-id message list; client views reconstructed only from wire output of real server connections whose stub Poll delegates to SessionTracker; Decode/EncodeSeqNum probed for every number after every step; race detector on",
-  text="Every history of length <= L over a 13-operation alphabet (appends of +1/+2, expunges, flag updates with and without source, mailbox flags, polls with and without expunge permission on 2 sessions) on a 3-message mailbox, plus seeded random histories with 1..4 sessions created/closed at arbitrary points, plus long-queue histories (120..319 operations while one session is never polled, then polled once). Decides: emitted updates are exactly the expected per-session event prefix, in order, correctly numbered, no EXPUNGE when disallowed, Poll(true) makes the view equal the mailbox, and both translations agree with the mirror for every number.",
+  text="Every history of length <= L over a 13-operation alphabet (appends of +1/+2, expunges, flag updates with and without source, mailbox flags, polls with and without expunge permission on 2 sessions) on a 3-message mailbox, plus seeded random histories with 1..4 sessions created/closed at arbitrary points, plus long-queue histories (120..319 operations while one session is never polled, then polled once), plus concurrent histories (one goroutine mutates while another polls; order, numbering and final convergence are decided). Decides: emitted updates are exactly the expected per-session event prefix, in order, correctly numbered, no EXPUNGE when disallowed, Poll(true) makes the view equal the mailbox, and both translations agree with the mirror for every number.",
   design_ref="DESIGN.md §3 C07",
   note="Sequential histories (one poll at a time); DecodeSeqNum probed on 1..|V|, EncodeSeqNum on 1..|M|."),
 
@@ -76,7 +76,7 @@ CHECKS = {
  "C10": dict(
   category="fault_enumeration",
   technique="runtime fault injection with virtual time: the instrumented in-process connection injects EOF / read error / stall / write error at every byte offset of live client<->server exchanges; per-call return tracking, goroutine census of package imapclient after Close, and a delivered-prefix oracle for 'success implies fully received completion'; race detector on",
-  text="14 scenarios covering every client command (12 against the real server + in-memory backend, 2 against a scripted server with unusual but valid transcripts) x every server->client offset x {EOF, reset, stall} and every client->server offset x {write error}. Liveness is decided in logical time: after the fault all I/O completes at once, read deadlines expire at once, a deadline-less stall is ended by Client.Close once the client is parked.",
+  text="17 scenarios covering every client command (12 against the real server + in-memory backend, 5 against a scripted server with unusual but valid transcripts: 40..70 items per FETCH, commands pipelined behind LOGOUT, 300 EXPUNGE responses with a slow consumer that calls State()/Mailbox(), unread BINARY sections) x every server->client offset x {EOF, reset, stall} and every client->server offset x {write error}. Liveness is decided in logical time: after the fault all I/O completes at once, read deadlines expire at once, a deadline-less stall is ended by Client.Close once the client is parked.",
   design_ref="DESIGN.md §3 C10",
   note="Backstops of 25-30 s are orders of magnitude above the millisecond run time; the completion oracle is skipped for the STARTTLS scenario (ciphertext)."),
 
@@ -90,21 +90,21 @@ CHECKS = {
  "C12": dict(
   category="exploration",
   technique="runtime trace monitor: scripted conformant server on the instrumented in-process connection; after every scripted line the vconn park signal (reader blocked with nothing pending) is the barrier at which Client.State()/Mailbox() are compared with a reference interpretation of the transcript; per-command exactly-once completion, status and data accounting; race detector on",
-  text="Random sets of 2..6 unambiguous pipelined commands with random outcomes (OK with/without text, NO/BAD with/without codes), answered in random order-preserving interleavings with unilateral EXISTS/EXPUNGE/FLAGS/PERMANENTFLAGS in between; state sequences around SELECT OK/NO/BAD, [CLOSED], UNSELECT/CLOSE, LOGOUT; tagged refusal of a synchronising literal with another command in flight; FETCH with '*' sets; long-lived connections of 1500..4000 commands answered in the empty forms FLAGS () / LIST () / PERMANENTFLAGS ().",
+  text="Random sets of 2..6 unambiguous pipelined commands with random outcomes (OK with/without text, NO/BAD with/without codes), answered in random order-preserving interleavings with unilateral EXISTS/EXPUNGE/FLAGS/PERMANENTFLAGS in between; state sequences around SELECT OK/NO/BAD, [CLOSED], UNSELECT/CLOSE, LOGOUT; tagged refusal of a synchronising literal with another command in flight; FETCH with '*' sets; long-lived connections of 1500..4000 commands answered in the empty forms FLAGS () / LIST () / PERMANENTFLAGS (); every fifth script with the server's response names, status conditions and response-code names in lower or mixed case.",
   design_ref="DESIGN.md §3 C12",
   note="During a SELECT in progress the client may report either the old mailbox unchanged or no mailbox. Trusts the reference interpreter in checks/c12."),
 
  "C18": dict(
   category="exploration",
   technique="runtime trace monitor: the client's output on the instrumented in-process connection is tokenised by the independent scanner and checked against the capability set the scripted server had advertised / enabled; the global ordered event log decides literal synchronisation (no payload byte before '+', none after a tagged refusal); race detector on",
-  text="Dialogues for 7 capability sets x string arguments from 16 classes in every command that takes strings x APPEND sizes around 4096 x SEARCH with non-ASCII text x 9 capability sets incl. UTF8=ONLY x a capability downgrade announced during IDLE with a SEARCH queued from a second goroutine (each command judged against the set in force when its first byte was written) x four server reactions to synchronising literals ('+' at once, '+' after unrelated untagged data once the client is parked, tagged NO, tagged BAD) x five server answers to ENABLE (granted, OK with empty ENABLED, OK without ENABLED, NO, BAD; UTF8=ACCEPT counts as enabled only when listed in an ENABLED response), ending with a usability probe.",
+  text="Dialogues for 7 capability sets x string arguments from 16 classes in every command that takes strings x APPEND sizes around 4096 x SEARCH with non-ASCII text x 9 capability sets incl. UTF8=ONLY x a capability downgrade announced during IDLE with a SEARCH queued from a second goroutine (each command judged against the set in force when its first byte was written) x four server reactions to synchronising literals ('+' at once, '+' after unrelated untagged data once the client is parked, tagged NO, tagged BAD) x five server answers to ENABLE (granted, OK with empty ENABLED, OK without ENABLED, NO, BAD; UTF8=ACCEPT counts as enabled only when listed in an ENABLED response), UNAUTHENTICATE (OK with / without CAPABILITY code) followed by a new LOGIN, ending with a usability probe.",
   design_ref="DESIGN.md §3 C18",
   note="Capability sets are constant within a dialogue; UTF8=ACCEPT counts from the command after the ENABLED response."),
 
  "C13": dict(
   category="exploration",
   technique="Go race detector + exactly-once completion accounting + tag-uniqueness on the tee, under stress workloads with schedule perturbation: seeded yields injected at every lock/unlock site of package imapclient by source-level instrumentation generated from the current tree (cmd/lockgen, go build -overlay), GOMAXPROCS varied, connection resets and concurrent Close at seed-chosen points",
-  text="Runs of 2/4/8 goroutines x 6..15 random commands of every kind against a scripted server that answers out of order and delays continuation requests, in four regimes (healthy, connection reset at a random byte, concurrent Close, both), with and without capability data in greeting / LOGIN, each workload under 3 yield seeds. Decides on the executions produced: zero deduplicated race reports with imapclient/imapwire frames, unique tags, every submitted command completes exactly once, Close returns.",
+  text="Runs of 2/4/8 goroutines x 6..15 random commands of every kind against a scripted server that answers out of order and delays continuation requests, in four regimes (healthy, connection reset at a random byte, concurrent Close, both), with and without capability data in greeting / LOGIN, each workload under 3 yield seeds; unilateral-data handlers that call State()/Mailbox(); one long-lived client with more than 10000 commands and one command pending throughout. Decides on the executions produced: zero deduplicated race reports with imapclient/imapwire frames, unique tags, every submitted command completes exactly once, Close returns.",
   design_ref="DESIGN.md §3 C13",
   note="Sees only the interleavings produced; evidence counts distinct lock-acquisition fingerprints. Yields only at genuine suspension points."),
 
@@ -123,7 +123,7 @@ CHECKS = {
  "C08": dict(
   category="exploration",
   technique="online trace checker over the raw response stream of every connection (independent tokenizer): per-connection announced view rebuilt from EXISTS/EXPUNGE/FETCH, invariants asserted on every line, view compared after every NOOP with the real mailbox content listed through a fresh view on a probe connection; sequential multi-session histories against the real server + in-memory backend; race detector on",
-  text="Seeded histories of 60 commands (APPEND/SELECT/EXAMINE/STORE/EXPUNGE/UID EXPUNGE/COPY/MOVE/FETCH/SEARCH/NOOP/IDLE/CLOSE, UID and non-UID forms, numbers, ranges, '*', 'n:*', '$') issued one at a time by 1..4 sessions over shared mailboxes with NOOP probability 3/8/20 % so that views are stale most of the time; every 10th history has a sleeper session that selects and then stays silent for 320 commands of the others before its NOOP. Refutes: a sequence number outside 1..announced count (incl. 0), EXPUNGE during non-UID FETCH/STORE/SEARCH, EXISTS below the announced count, a UID inconsistent with its position, a reconstructed view that differs from the mailbox after NOOP.",
+  text="Seeded histories of 60 commands (APPEND/SELECT/EXAMINE/STORE/EXPUNGE/UID EXPUNGE/COPY/MOVE/FETCH/SEARCH/NOOP/IDLE/CLOSE, UID and non-UID forms, numbers, ranges, '*', 'n:*', '$') issued one at a time by 1..4 sessions over shared mailboxes with NOOP probability 3/8/20 % so that views are stale most of the time; every 10th history has a sleeper session that selects and then stays silent for 320 commands of the others before its NOOP; command names in lower/mixed case; plus concurrent histories (2..8 sessions at once, each connection's response stream checked for the invariants that hold under any interleaving, view after a NOOP at quiescence compared with the mailbox). Refutes: a sequence number outside 1..announced count (incl. 0), EXPUNGE during non-UID FETCH/STORE/SEARCH, EXISTS below the announced count, a UID inconsistent with its position, a reconstructed view that differs from the mailbox after NOOP.",
   design_ref="DESIGN.md §3 C08",
   note="Commands are not overlapped (C14 does that); IDLE pushes are consumed when the session leaves IDLE."),
 
@@ -136,7 +136,7 @@ CHECKS = {
  "C14": dict(
   category="exploration",
   technique="Go race detector + Goodlock-style lock-order graph (instance level, gate-lock aware, sync.Mutex and sync.RWMutex incl. recursive read-lock detection) + per-command watchdog decided on two goroutine dumps, under stress workloads of concurrent sessions with schedule perturbation: seeded yields injected at every lock/unlock site of packages imapserver and imapmemserver by source-level instrumentation generated from the current tree (cmd/lockgen, go build -overlay), GOMAXPROCS varied",
-  text="Runs of 2..8 concurrently running sessions x 20..44 random commands over 2..3 shared mailboxes (COPY/MOVE in both directions, FETCH with literals, STORE, EXPUNGE, APPEND, SEARCH, LIST/LSUB with STATUS, CREATE/DELETE/RENAME/SUBSCRIBE of scratch and shared mailboxes, IDLE with DONE or abrupt disconnect, CLOSE) in profiles mixed / copy-storm / namespace / stalled-idler (one session idles and stops reading while the others change its mailbox hundreds of times). Decides on the executions produced: every command gets its tagged reply, no lock-order cycle taken by different goroutines without a common gate (reported even if the run did not hang), zero deduplicated race reports with imapserver / imapmemserver frames, no panic in the server log.",
+  text="Runs of 2..8 concurrently running sessions x 20..44 random commands over 2..3 shared mailboxes (COPY/MOVE in both directions, FETCH with literals, STORE, EXPUNGE, APPEND, SEARCH, LIST/LSUB with STATUS, CREATE/DELETE/RENAME/SUBSCRIBE of scratch and shared mailboxes, IDLE with DONE or abrupt disconnect, CLOSE) (LIST forms incl. empty and multiple patterns) in profiles mixed / copy-storm / namespace / stalled-idler (one session idles and stops reading while the others change its mailbox hundreds of times). Decides on the executions produced: every command gets its tagged reply, no lock-order cycle taken by different goroutines without a common gate (reported even if the run did not hang), zero deduplicated race reports with imapserver / imapmemserver frames, no panic in the server log.",
   design_ref="DESIGN.md §3 C14",
   note="Sees only the interleavings produced; evidence counts lock acquisitions, order edges, lock instances and distinct fingerprints. A watchdog expiry while server goroutines are still running is recorded as an inconclusive run, not a violation."),
 }
